@@ -380,6 +380,10 @@ func (c *CFG) EdgeFacts(b *cfg.Block, succ int) []Fact {
 			}
 		}
 		out = append(out, Fact{C: c, B: b, Succ: succ, Expr: e, Truth: truth})
+		// a single-assignment boolean local with a pure definition also states its definition
+		if d := PureBoolDef(e); d != nil {
+			rec(d, truth)
+		}
 	}
 	rec(cond, succ == 0)
 	return out
